@@ -8,7 +8,8 @@ import AmaranthVerif.Spec.Wiring
 Requests (one S-expression per line):
 
 * `(flatten SV)`           → `model=<leaves> flip=<leaves of the flipped view> spec=<leafAt on the same paths>
-                               specflip=<flipLeaves model> meta=<port records> entries=<member listing>`
+                               specflip=<flipLeaves model> meta=<port records> entries=<member listing>
+                               flipentries=<member listing of the flipped view>`
 * `(leafat SV (PATH)...)`  → `spec=<leaf or none per path>`
 * `(create SV)`            → `obj=<S-expression of the created object> model=<is_compliant> old=<is_compliant, code as it stands>`
 * `(compliant SV OBJ)`     → `model=… old=…`
@@ -171,10 +172,12 @@ def handle : Sexp → Option String
       s!"{showPath p}=" ++ (match l with | some l => showLeaf l | none => "none"))
     let md := sv.metadata
     let es := sv.2.entries sv.1 []
+    let fes := sv.2.entries (!sv.1) []
     pure (s!"model={showLeaves m} flip={showLeaves fm} spec={spS} " ++
       s!"specflip={showLeaves (WiringSpec.flipLeaves m)} " ++
       "meta=" ++ (if md.isEmpty then "-" else ";".intercalate (md.map showMeta)) ++
-      " entries=" ++ (if es.isEmpty then "-" else ";".intercalate (es.map showEntry)))
+      " entries=" ++ (if es.isEmpty then "-" else ";".intercalate (es.map showEntry)) ++
+      " flipentries=" ++ (if fes.isEmpty then "-" else ";".intercalate (fes.map showEntry)))
   | .list (.atom "leafat" :: sv :: ps) => do
     let sv ← parseSV sv
     let ps ← ps.mapM parsePath
